@@ -86,7 +86,7 @@ Section Spec.
     | DCheckbox _ | DBookmark _ | DBreak _ => tr_empty
     | DImage alt ctype src =>
         match conv_attrs (o_conv o) (ni + 1) alt ctype src with
-        | inl m => mkTr [] [] [] [m] 1 []
+        | inl m => mkTr [] [] [] [m] (if counts_failed_calls (o_conv o) then 1 else 0) []
         | inr a => mkTr [] [] [] [] 1
                      [Elem (plain_tag [105;109;103] (attrs_update (if truthy alt then [(k_alt, fmt_opt alt)] else []) a)) []]
         end
